@@ -425,6 +425,11 @@ func (c *Ctx) RuleLock(pkg *ssa.Package, varName, muName string) {
 					call, ok := r.(*ssa.Call)
 					if !ok || len(call.Call.Args) == 0 || call.Call.Args[0] != ld {
 						c.add("violated", "C19.lock", fn, r.Pos(), varName+" escapes (not a method call receiver)")
+						continue
+					}
+					// only drawing methods: re-seeding the shared generator restarts or repeats its stream within a run
+					if f := call.Call.StaticCallee(); (f == nil || f.Name() == "Seed") && !freshClockSeed(call) {
+						c.addc("violated", "C19.lock", fn, r.Pos(), "reseed", "the shared generator is re-seeded after initialisation ("+varName+".Seed) with something other than a clock reading taken at that moment: the stream restarts, IDs already handed out can be produced again within the run", "")
 					}
 				}
 				// dominated by Lock on mu, and fn has deferred Unlock on mu
@@ -763,4 +768,24 @@ func (c *Ctx) unlockOnEveryPath(fn *ssa.Function, at ssa.Instruction, mu *ssa.Gl
 		}
 	}
 	return len(at.Block().Succs) > 0
+}
+
+// freshClockSeed: the call is x.Seed(time.Now().Unix*()) with the clock read in place.
+func freshClockSeed(call *ssa.Call) bool {
+	if len(call.Call.Args) != 2 {
+		return false
+	}
+	u, ok := call.Call.Args[1].(*ssa.Call)
+	if !ok || len(u.Call.Args) != 1 {
+		return false
+	}
+	if f := u.Call.StaticCallee(); f == nil || !strings.HasPrefix(f.String(), "(time.Time).Unix") {
+		return false
+	}
+	n, ok := u.Call.Args[0].(*ssa.Call)
+	if !ok {
+		return false
+	}
+	f := n.Call.StaticCallee()
+	return f != nil && f.String() == "time.Now"
 }
